@@ -104,11 +104,27 @@ static void put_buf(const carquet_buffer_t* b) { h_puthex(b->data, b->size); }
 
 static int err(int st) { printf("ERR %d\n", st); return 0; }
 
+/* Encoders that append to a carquet_buffer_t are also run on NON-EMPTY buffers (ops plain_encp, dl_encp, ds_encp,
+ * dict_encp: the last token is the content already in the buffer).  The whole buffer is printed: the prefix must
+ * still be there and what follows must be the encoding. */
+static const char* g_prefix = NULL;
+static size_t g_prefix_len = 0;
+static void buf_start(carquet_buffer_t* b) {
+    carquet_buffer_init(b);
+    g_prefix_len = 0;
+    if (g_prefix) {
+        size_t n; void* base; uint8_t* p = h_unhex(g_prefix, &n, 0, &base);
+        carquet_buffer_append(b, p, n);
+        g_prefix_len = n;
+        free(base);
+    }
+}
+
 /* ---------------------------------------------------------------- PLAIN */
 
 static void do_plain_enc(void) {
     const char* ty = h_tok[1];
-    carquet_buffer_t out; carquet_buffer_init(&out);
+    carquet_buffer_t out; buf_start(&out);
     carquet_status_t st = CARQUET_ERROR_INVALID_ARGUMENT;
     if (!strcmp(ty, "ba")) {
         balist_t l = parse_bas(h_tok[2]);
@@ -233,7 +249,7 @@ static void do_delta_dec(int is64) {
 
 static void do_str_enc(int strings) {
     balist_t l = parse_bas(h_tok[1]);
-    carquet_buffer_t out; carquet_buffer_init(&out);
+    carquet_buffer_t out; buf_start(&out);
     carquet_status_t st = strings ? carquet_delta_strings_encode(l.v, (int32_t)l.n, &out)
                                   : carquet_delta_length_encode(l.v, (int32_t)l.n, &out);
     if (st != CARQUET_OK) err(st); else { printf("OK "); put_buf(&out); putchar('\n'); }
@@ -314,7 +330,8 @@ static void do_bss(int enc) {
 /* dict_enc <type> <values>  ->  OK <dictionary page bytes> <index bytes> <bit width> <indices decoded back with carquet_rle_decode_all> */
 static void do_dict_enc(void) {
     const char* ty = h_tok[1];
-    carquet_buffer_t d, ix; carquet_buffer_init(&d); carquet_buffer_init(&ix);
+    carquet_buffer_t d, ix; buf_start(&d); buf_start(&ix);
+    size_t off = g_prefix_len;
     carquet_status_t st = CARQUET_ERROR_INVALID_ARGUMENT; size_t n = 0;
     if (!strcmp(ty, "ba")) {
         balist_t l = parse_bas(h_tok[2]); n = l.n;
@@ -338,12 +355,12 @@ static void do_dict_enc(void) {
     if (st != CARQUET_OK) { err(st); }
     else {
         printf("OK "); put_buf(&d); putchar(' '); put_buf(&ix);
-        if (ix.size >= 1) {
-            int bw = ix.data[0];
+        if (ix.size >= off + 1) {
+            int bw = ix.data[off];
             uint32_t* idx = malloc(n * 4 + 1);
             /* exact-size copy of the index stream for the decoder */
-            uint8_t* cp = malloc(ix.size); memcpy(cp, ix.data, ix.size);
-            int64_t got = carquet_rle_decode_all(cp + 1, ix.size - 1, bw, idx, (int64_t)n);
+            uint8_t* cp = malloc(ix.size - off); memcpy(cp, ix.data + off, ix.size - off);
+            int64_t got = carquet_rle_decode_all(cp + 1, ix.size - off - 1, bw, idx, (int64_t)n);
             printf(" %d %" PRId64 " ", bw, got);
             put_nums32(idx, got > 0 ? (size_t)got : 0);
             free(cp); free(idx);
@@ -428,7 +445,12 @@ int main(void) {
     while (h_readline()) {
         h_split();
         const char* op = h_ntok ? h_tok[0] : "";
+        g_prefix = NULL;
         if (!strcmp(op, "plain_enc") && h_ntok == 3) do_plain_enc();
+        else if (!strcmp(op, "plain_encp") && h_ntok == 4) { g_prefix = h_tok[3]; do_plain_enc(); }
+        else if (!strcmp(op, "dl_encp") && h_ntok == 3) { g_prefix = h_tok[2]; do_str_enc(0); }
+        else if (!strcmp(op, "ds_encp") && h_ntok == 3) { g_prefix = h_tok[2]; do_str_enc(1); }
+        else if (!strcmp(op, "dict_encp") && h_ntok == 4) { g_prefix = h_tok[3]; do_dict_enc(); }
         else if (!strcmp(op, "plain_dec") && h_ntok == 4) do_plain_dec();
         else if (!strcmp(op, "d32_enc") && h_ntok == 3) do_delta_enc(0);
         else if (!strcmp(op, "d64_enc") && h_ntok == 3) do_delta_enc(1);
